@@ -422,67 +422,60 @@ func isDangerousProcPath(path string) bool {
 }
 
 func resolveTraceePath(pid int, base string, p string) string {
-	p = normalizeProcMagicPath(pid, p)
 	if !filepath.IsAbs(p) {
 		if base == "" {
 			base = getProcCwd(pid)
 		}
-		p = filepath.Join(base, p)
-	}
-	p = filepath.Clean(p)
-
-	for range maxSymlinkDepth {
-		next, changed := resolveTraceePathOnce(pid, p)
-		if !changed {
-			return next
-		}
-		p = next
-	}
-	return p
-}
-
-func resolveTraceePathOnce(pid int, p string) (string, bool) {
-	if p == "/" {
-		return p, false
+		// do not clean lexically: ".." applies to the directory the preceding components resolve to
+		p = base + "/" + p
 	}
 
+	// walk component by component like the kernel does; cur is always free of symlinks
+	traceeProc := "/proc/" + strconv.Itoa(pid)
 	cur := "/"
-	rest := strings.Split(strings.TrimPrefix(p, "/"), "/")
-	for i, part := range rest {
+	rest := strings.Split(p, "/")
+	links := 0
+	for len(rest) > 0 {
+		part := rest[0]
+		rest = rest[1:]
 		if part == "" || part == "." {
 			continue
 		}
 		if part == ".." {
 			cur = filepath.Dir(cur)
-			if cur == "." {
-				cur = "/"
-			}
 			continue
 		}
 
 		candidate := filepath.Join(cur, part)
-		lstatPath := filepath.Join(fmt.Sprintf("/proc/%d/root", pid), candidate)
+		// /proc/self and /proc/thread-self name the tracee, not the tracer
+		if candidate == "/proc/self" {
+			cur = traceeProc
+			continue
+		}
+		if candidate == "/proc/thread-self" {
+			// Best-effort normalization: for single-threaded checks, map thread-self to the tracee task path.
+			cur = filepath.Join(traceeProc, "task", strconv.Itoa(pid))
+			continue
+		}
+
+		lstatPath := filepath.Join(traceeProc, "root", candidate)
 		fi, err := os.Lstat(lstatPath)
 		if err != nil || fi.Mode()&os.ModeSymlink == 0 {
 			cur = candidate
 			continue
 		}
-
 		target, err := os.Readlink(lstatPath)
 		if err != nil {
 			cur = candidate
 			continue
 		}
-		target = normalizeProcMagicPath(pid, target)
-		if !filepath.IsAbs(target) {
-			target = filepath.Join(filepath.Dir(candidate), target)
+		if links++; links > maxSymlinkDepth {
+			return filepath.Join(append([]string{candidate}, rest...)...)
 		}
-		target = filepath.Clean(target)
-
-		if i+1 < len(rest) {
-			target = filepath.Join(target, filepath.Join(rest[i+1:]...))
+		if filepath.IsAbs(target) {
+			cur = "/"
 		}
-		return filepath.Clean(target), true
+		rest = append(strings.Split(target, "/"), rest...)
 	}
-	return filepath.Clean(cur), false
+	return cur
 }
